@@ -166,6 +166,7 @@ async fn run_scenario(line: String) -> Vec<String> {
     let mut out = Vec::new();
     LOG.with(|l| l.borrow_mut().clear());
     let w2 = w.clone();
+    let prog_again = prog.clone();
     let root = create_root(move || build(&prog, &w2));
     settle().await;
     out.push(observe(&w));
@@ -202,7 +203,22 @@ async fn run_scenario(line: String) -> Vec<String> {
     if r.is_err() {
         log("PANIC:at-root-dispose".to_string());
     }
+    // the root is used again at once (as the per-thread root of the SSR entry points is): the same tree is built in it BEFORE the
+    // executor has dropped the tasks cancelled by the disposal; what those tasks held must not touch the new boundaries
+    let w3 = Rc::new(RefCell::new(World::default()));
+    let w4 = w3.clone();
+    let again = panic::catch_unwind(AssertUnwindSafe(|| root.run_in(move || build(&prog_again, &w4))));
+    if again.is_err() {
+        log("PANIC:at-rebuild".to_string());
+    }
     w.borrow_mut().gates.clear();
+    settle().await;
+    out.push(format!("again {}", observe(&w3)));
+    let r = panic::catch_unwind(AssertUnwindSafe(|| root.dispose()));
+    if r.is_err() {
+        log("PANIC:at-root-dispose".to_string());
+    }
+    w3.borrow_mut().gates.clear();
     settle().await;
     let evs = LOG.with(|l| std::mem::take(&mut *l.borrow_mut()));
     out.push(format!("end {}", evs.join(" ")));
